@@ -9,7 +9,7 @@ import gosub_wide as gw  # noqa: E402
 
 GROUP = "GoSub"
 XQ = ("Arith", "Opt")
-THEOREMS = ["C01_core_compile_correct_partial", "C01_refuted_const_subexpression"]
+THEOREMS = ["C01_core_compile_correct_partial", "C01_refuted_const_subexpression", "C01_stmt_compile_correct_partial"]
 META = {
     "group": "GoSub",
     "technique": "Coq proof of compile correctness (Go reference semantics vs the Ego compiler's emission run on the VM instruction "
@@ -17,13 +17,17 @@ META = {
                  "model vs the real ego binary in every type mode) + Ego-vs-Go differential on generated programs over the documented subset",
     "text": "Theorem C01_core_compile_correct_partial: for every integer kind, type mode, environment and Go-typed expression over "
             "+ - * / with literals and variables (excluding an operator applied to two literals and literals above MaxInt64) the "
-            "compiled code pushes exactly Go's value with Go's type, or fails with division by zero exactly when Go panics; "
-            "C01_refuted_const_subexpression shows the excluded cell is a real divergence (x + (1 + 2) on an int8). go_eval is compared "
-            "with the real Go toolchain and the VM model with the real ego binary on every run; the wider documented subset (slices, "
-            "maps, structs, methods, closures, switch, labels, variadics, multiple returns, defer/panic/recover) is compared "
-            "Ego-vs-Go on generated programs. partial: statements (assignment forms, if, for, calls, Println) and everything beyond "
-            "integer expressions are observed by the differential only; the compiler's emission is tied through the end-to-end "
-            "agreement, not instruction by instruction",
+            "compiled code pushes exactly Go's value with Go's type, or fails with division by zero exactly when Go panics. "
+            "Theorem C01_stmt_compile_correct_partial: for straight-line programs of x := e, x = e, x += -= *= /= e, x++ / x--, "
+            "fmt.Println(e) and sequencing, the bytecode compile_stmt emits (let markers, Load/arith/SymbolCreate/Store/DropToMarker, "
+            "native print), run by the VM model from its first instruction, ends with exactly Go's final environment and printed "
+            "values and an empty stack, or stops with division by zero after Go's output exactly when Go panics (every kind, every "
+            "mode). C01_refuted_const_subexpression shows an excluded cell is a real divergence. go_eval / go_exec are compared with the "
+            "real Go toolchain, the VM model with the real ego binary in three modes, and compile_stmt (if/else included) instruction "
+            "for instruction with the real compiler's dumped bytecode (line markers and the fetch of fmt.Println canonicalised) on "
+            "every run; the wider documented subset is compared Ego-vs-Go on generated programs. partial: if/else is modelled, compiled "
+            "and tied (bytecode + outputs) but its simulation proof is not finished; loops, calls, strings/bools, block-scoped "
+            "declarations and everything beyond are observed by the differential only",
     "note": "Trusted: Coq kernel; the instruction semantics of Opt/Model.v and Arith/Model.v (tied by C02/C03); GoSub.compile as a "
             "hand transliteration of the expression compiler; lib/gosub_wide.py (program generator, batch runner, comparison); the Go "
             "toolchain as the reference.",
@@ -206,6 +210,151 @@ def gen_structcopy(rng, idx):
     return p
 
 
+# ---------------------------------------------------------------- core statements (GoSub/Stmt.v)
+BOPS = {"+": "BAdd", "-": "BSub", "*": "BMul", "/": "BDiv"}
+CMPS = {"<": "CLt", "<=": "CLe", ">": "CGt", ">=": "CGe", "==": "CEq", "!=": "CNe"}
+
+
+def gen_se(rng, names, hi, depth, lit_ok=True):
+    """expression over the given variables: (go text, coq term, is literal); never an operator on two literals"""
+    if depth == 0 or rng.random() < 0.3:
+        if not lit_ok or rng.random() < 0.6:
+            v = rng.choice(names)
+            return v, "(EVar %s)" % vf.vrunes(v), False
+        top = min(hi, 2 ** 31 - 1)      # a literal above MaxInt32 is an int64 constant in Ego (recorded finding class): not generated
+        z = rng.choice([1, 2, 3, 7, top, rng.randint(1, min(top, 100))])
+        return str(z), "(EConst %d)" % z, True
+    op = rng.choice(list(BOPS))
+    l = gen_se(rng, names, hi, depth - 1)
+    r = gen_se(rng, names, hi, depth - 1, lit_ok=not l[2])
+    return "(%s %s %s)" % (l[0], op, r[0]), "(EBin %s %s %s)" % (BOPS[op], l[1], r[1]), False
+
+
+def gen_stmts(rng, names, hi, n, fresh, indent, allow_decl):
+    """(go lines, coq stmt term, names after).  Guarded as in Stmt.guarded_in: no literal on the right of := / =, no := in branches"""
+    lines, terms = [], []
+    for _ in range(n):
+        k = rng.randint(0, 6 if allow_decl else 5)
+        x = rng.choice(names)
+        if k == 0:
+            e = gen_se(rng, names, hi, 2, lit_ok=False)
+            lines.append("%s%s = %s" % (indent, x, e[0]))
+            terms.append("(SAssign %s %s)" % (vf.vrunes(x), e[1]))
+        elif k == 1:
+            op = rng.choice(list(BOPS))
+            e = gen_se(rng, names, hi, 1)
+            lines.append("%s%s %s= %s" % (indent, x, op, e[0]))
+            terms.append("(SOpAssign %s %s %s)" % (BOPS[op], vf.vrunes(x), e[1]))
+        elif k == 2:
+            inc = rng.random() < 0.5
+            lines.append("%s%s%s" % (indent, x, "++" if inc else "--"))
+            terms.append("(SIncDec %s %s)" % ("true" if inc else "false", vf.vrunes(x)))
+        elif k in (3, 4):
+            e = gen_se(rng, names, hi, 2)
+            lines.append("%sfmt.Println(%s)" % (indent, e[0]))
+            terms.append("(SPrint %s)" % e[1])
+        elif k == 5 and len(indent) < 3:
+            c = rng.choice(list(CMPS))
+            e1 = gen_se(rng, names, hi, 1)
+            e2 = gen_se(rng, names, hi, 1, lit_ok=not e1[2])
+            la, ta, _ = gen_stmts(rng, names, hi, rng.randint(1, 2), fresh, indent + "\t", False)
+            lb, tb, _ = gen_stmts(rng, names, hi, rng.randint(1, 2), fresh, indent + "\t", False)
+            lines += ["%sif %s %s %s {" % (indent, e1[0], c, e2[0])] + la + ["%s} else {" % indent] + lb + ["%s}" % indent]
+            terms.append("(SIf %s %s %s %s %s)" % (CMPS[c], e1[1], e2[1], ta, tb))
+        elif k == 6 and fresh:
+            nx = fresh.pop(0)
+            e = gen_se(rng, names, hi, 2, lit_ok=False)
+            if e[0] in names:            # `x := a` alone: make it an operation so the value is a fresh one
+                e = ("(%s + %s)" % (e[0], names[0]), "(EBin BAdd %s (EVar %s))" % (e[1], vf.vrunes(names[0])), False)
+            lines.append("%s%s := %s" % (indent, nx, e[0]))
+            terms.append("(SDecl %s %s)" % (vf.vrunes(nx), e[1]))
+            names = names + [nx]
+        else:
+            lines.append("%sfmt.Println(%s)" % (indent, x))
+            terms.append("(SPrint (EVar %s))" % vf.vrunes(x))
+    t = terms[-1]
+    for u in reversed(terms[:-1]):
+        t = "(SSeq %s %s)" % (u, t)
+    return lines, t, names
+
+
+def gen_stmt_prog(rng, idx, kind=None):
+    gk, ck, lo, hi = kind or rng.choice(KINDS)
+    top = min(hi, 2 ** 63 - 1)
+    vals = [rng.choice([lo + 1, top, top - 1, 0, 1, 2, 3, 7, rng.randint(max(lo, -1000), min(top, 1000))]) for _ in VARS]
+    lines, term, names = gen_stmts(rng, list(VARS), hi, rng.randint(3, 7), ["x", "y"], "\t", True)
+    tail = ["\tfmt.Println(%s)" % n for n in names]
+    for n in names:
+        term = "(SSeq %s (SPrint (EVar %s)))" % (term, vf.vrunes(n))
+    decl = ["\tvar %s %s = %s" % (v, gk, z) for v, z in zip(VARS, vals)]
+    text = "func prog@() {\n%s\n}\n" % "\n".join(decl + lines + tail)
+    p = gw.from_template(text, idx)
+    p["stmt"] = {"kind": gk, "ck": ck, "coq": term,
+                 "env": "[" + "; ".join("(%s, (%d))" % (vf.vrunes(v), z) for v, z in zip(VARS, vals)) + "]"}
+    return p
+
+
+DUMP_OPS = {"Add": "OAdd", "Sub": "OSub", "Mul": "OMul", "Div": "ODiv", "LT": "LessThan", "LTEQ": "LessThanOrEqual",
+            "GT": "GreaterThan", "GTEQ": "GreaterThanOrEqual", "Equal": "Equal", "NotEqual": "NotEqual", "Push": "Push",
+            "Load": "Load", "Store": "Store", "SymbolCreate": "SymbolCreate", "DropToMarker": "DropToMarker",
+            "Branch": "Branch", "BranchFalse": "BranchFalse", "BranchTrue": "BranchTrue"}
+
+
+def canonical_main(dump):
+    """real bytecode of func main -> Coq list instr for the statements after `var c K = ...`: line markers dropped, the
+    fetch of fmt.Println (Load fmt; SetThis; Member Println) dropped and Call 1 -> Print, branch operands renumbered;
+    None when an instruction outside the modelled set occurs"""
+    units, cur = {}, None
+    for line in dump.splitlines():
+        if line.startswith("U "):
+            cur = line.split(" ", 4)[4]
+            units[cur] = []
+        elif line.startswith("I "):
+            _, op, operand = line.split(" ", 2)
+            units[cur].append((op, operand))
+    ins = units.get('"main"')
+    if ins is None:
+        return None
+    start = next((i for i, x in enumerate(ins) if x == ("Store", 's:"c"')), None)
+    end = max((i for i, x in enumerate(ins) if x[0] == "RunDefers"), default=None)
+    if start is None or end is None:
+        return None
+    keep, newidx = [], {}
+    for i in range(start + 1, end):
+        op, operand = ins[i]
+        newidx[i] = len(keep)
+        if op == "AtLine" or (op, operand) in (("Load", 's:"fmt"'), ("SetThis", "nil"), ("Member", 's:"Println"')):
+            continue
+        keep.append((i, op, operand))
+    newidx[end] = len(keep)
+    out = []
+    for i, op, operand in keep:
+        if op == "Call" and operand == "l[i:1,b:true]":
+            out.append("(Print, ONil)")
+            continue
+        if op not in DUMP_OPS:
+            return None
+        if op.startswith("Branch"):
+            t = int(operand[2:])
+            if t not in newidx:
+                return None
+            o = "OV (VInt Int %d)" % newidx[t]
+        elif operand == "nil":
+            o = "ONil"
+        elif operand.startswith("s:"):
+            o = "OV (VStr %s)" % vf.vrunes(json.loads(operand[2:]))
+        elif operand.startswith("c(i:"):
+            o = "OC (VInt Int (%s))" % operand[4:-1]
+        elif operand.startswith('m:"let"'):
+            o = "OM 2%N"
+        elif operand.startswith('m:"call"'):
+            o = "OM 3%N"
+        else:
+            return None
+        out.append("(%s, %s)" % (DUMP_OPS[op], o))
+    return "[" + "; ".join(out) + "]"
+
+
 def outcome(out, abort):
     """('ok', z) | ('panic',) | ('other', text)"""
     if abort:
@@ -253,6 +402,11 @@ def run(ck):
         rp = json.load(open(ck.replay_file))["replay"]
         if rp.get("go_funcs"):
             core, wide = [], [{"id": rp["id"], "go_funcs": rp["go_funcs"], "features": rp.get("features", [])}]
+    nst = 10 if quick else 120
+    stm = [gen_stmt_prog(ck.rng, "s%d" % i, kind=KINDS[i % len(KINDS)]) for i in range(nst)] if not ck.replay_file else []
+    for q in stm:
+        q["features"] = ["core-statements"]
+    wide = stm + wide
     SKIP_KNOWN = {"cli:unhandled-panic-trace-on-stdout", "map-two-value-missing-key-yields-nil"}   # outside the property text
     known = [(e, p) for e, p in gw.known_as_progs() if e["signature"] not in SKIP_KNOWN] if not ck.replay_file else []
     progs = core + wide + [cc] + [p for _, p in known]
@@ -267,7 +421,7 @@ def run(ck):
     gobin = os.path.join(work, "batch.bin")
     modes = {"dynamic": by}
     for mode in ("strict", "relaxed"):
-        r2 = gw.run_batch(core + [p for p in wide if p.get("features") == ["operator-adjacency"]],
+        r2 = gw.run_batch(core + [p for p in wide if p.get("features") in (["operator-adjacency"], ["core-statements"])],
                           os.path.join(ck.work, "diff-" + mode), ego=ego, ego_args=("--types", mode), jobs=8, go_bin=gobin)
         modes[mode] = {r["id"]: r for r in r2}
 
@@ -343,6 +497,80 @@ def run(ck):
                     p = core[i]
                     ck.violation("corr-" + key, "%s disagree on %s kind %s vars %s" % (what, p["core"]["go"], p["core"]["kind"], p["core"]["vals"]),
                                  replay={"id": p["id"], "go_funcs": p["go_funcs"]}, found_input=False)
+    # ---- core statements: go_exec vs real Go, VM model vs real Ego (3 modes), compile_stmt vs the real compiler's bytecode
+    if coq_ok and stm:
+        okh, hbin = vf.go_test_build(ck.work, "internal/language/compiler", {
+            "internal/language/compiler/zz_verif_c10_test.go": os.path.join(vf.HARNESS, "C10", "c10_test.go"),
+            "internal/language/bytecode/zz_verif_dump.go": os.path.join(vf.HARNESS, "C10", "dump.go")}, "c01dump.test")
+        dumps = {}
+        if okh:
+            inp, outp = os.path.join(ck.work, "din.json"), os.path.join(ck.work, "dout.json")
+            json.dump([{"id": i, "src": gw.ego_source(q)} for i, q in enumerate(stm)], open(inp, "w"))
+            rc, log = vf.run_bin(hbin, "^TestVerifC10$", {"VERIF_IN": inp, "VERIF_OUT": outp})
+            if rc == 0 and os.path.exists(outp):
+                for r in json.load(open(outp)):
+                    dumps[r["id"]] = r.get("dump", "")
+        if not dumps:
+            ck.violation("dump-harness", "the bytecode dump harness (harness/C10) does not build or run:\n" + str(hbin)[-1200:],
+                         replay={"log": str(hbin)[-3000:]}, found_input=False)
+        else:
+            def obs(r):
+                try:
+                    return "[" + "; ".join("(%d)" % int(x) for x in r["ego_out" if "ego" in r.get("_side", "") else "go_out"].split()) + "]"
+                except ValueError:
+                    return None
+
+            def enc(text, abort):
+                try:
+                    return "[" + "; ".join(["(%d)" % int(x) for x in text.split()] + ["1" if abort else "0"]) + "]"
+                except ValueError:
+                    return "[99]"
+            rows = []
+            for i, q in enumerate(stm):
+                c = q["stmt"]
+                code = canonical_main(dumps.get(i, ""))
+                g = by[q["id"]]
+                e = [modes[mm][q["id"]] for mm in ("dynamic", "strict", "relaxed")]
+                rows.append("(%s, %s, %s, %s, %s, %s, %s, %s)" % (
+                    c["ck"], c["env"], c["coq"], ("Some %s" % code) if code else "None", enc(g["go_out"], g["go_abort"]),
+                    enc(e[0]["ego_out"], e[0]["ego_abort"]), enc(e[1]["ego_out"], e[1]["ego_abort"]), enc(e[2]["ego_out"], e[2]["ego_abort"])))
+            pre = "\n".join([
+                "From Coq Require Import List ZArith NArith Bool.", "From Common Require Import Base.", "From Arith Require Import Model.",
+                "From Opt Require Import Model.", "From GoSub Require Import Model Stmt.", "Import ListNotations.", "Open Scope Z_scope.",
+                "Definition row : Type := (ikind * env * stmt * option (list instr) * list Z * list Z * list Z * list Z)%type.",
+                "Fixpoint zl_eqb (a b : list Z) : bool := match a, b with [], [] => true | x :: r, y :: t => (x =? y) && zl_eqb r t | _, _ => false end.",
+                "Fixpoint il_eqb (a b : list instr) : bool := match a, b with [], [] => true | x :: r, y :: t => opcode_eqb (fst x) (fst y) && operand_eqb (snd x) (snd y) && il_eqb r t | _, _ => false end.",
+                "Definition cases : list row := [", ";\n".join(rows) + "].",
+                "Fixpoint idx (f : row -> bool) (i : Z) (l : list row) : list Z := match l with [] => [] | x :: r => (if f x then [i] else []) ++ idx f (i + 1) r end."])
+            okc, out = vf.coq_eval(GROUP, ck.work, "stcases", pre, {
+                "go": "idx (fun '(k, en, p, c, g, d, s, r) => negb (zl_eqb (go_result k en p) g)) 0 cases",
+                "dyn": "idx (fun '(k, en, p, c, g, d, s, r) => negb (zl_eqb (vm_exec Dynamic k en p) d)) 0 cases",
+                "str": "idx (fun '(k, en, p, c, g, d, s, r) => negb (zl_eqb (vm_exec Strict k en p) s)) 0 cases",
+                "rel": "idx (fun '(k, en, p, c, g, d, s, r) => negb (zl_eqb (vm_exec Relaxed k en p) r)) 0 cases",
+                "code": "idx (fun '(k, en, p, c, g, d, s, r) => match c with Some rc => negb (il_eqb (compile_stmt 0 p) rc) | None => false end) 0 cases",
+                "nocode": "idx (fun '(k, en, p, c, g, d, s, r) => match c with Some _ => false | None => true end) 0 cases",
+                "guard": "idx (fun '(k, en, p, c, g, d, s, r) => negb (guarded k en p)) 0 cases"}, extra_q=XQ)
+            if not okc:
+                ck.violation("correspondence-eval", "statement model evaluation failed:\n" + str(out)[-1500:], replay={"log": str(out)[-3000:]},
+                             found_input=False)
+            else:
+                ck.cov["stmt_programs"] = len(stm)
+                ck.cov["stmt_bytecode_compared"] = len(stm) - len(out["nocode"])
+                if len(out["nocode"]) * 5 > len(stm):
+                    ck.violation("stmt-code-uncompared", "%d of %d statement programs compile to instructions outside the modelled set" % (
+                        len(out["nocode"]), len(stm)), replay={"ids": out["nocode"]}, found_input=False)
+                ck.cov["input_distribution"]["stmt_outside_guard"] = len(out["guard"])
+                already = any(v["signature"].startswith("go-divergence") for v in ck.viol)
+                for key, what in (("go", "go_exec vs the real Go toolchain"), ("dyn", "VM model (compile_stmt) vs ego --types dynamic"),
+                                  ("str", "VM model (compile_stmt) vs ego --types strict"), ("rel", "VM model (compile_stmt) vs ego --types relaxed"),
+                                  ("code", "compile_stmt vs the real compiler's bytecode (canonicalised)"),
+                                  ("guard", "generated statement program outside the theorem's guard")):
+                    for i in out[key][:2]:
+                        if already and key != "code":
+                            break
+                        q = stm[i]
+                        ck.violation("stmt-" + key, "%s disagree on\n%s" % (what, gw.ego_source(q)),
+                                     replay={"id": q["id"], "go_funcs": q["go_funcs"], "features": q["features"]}, found_input=False)
     elif getattr(ck, "coq_broken", None) and not ck.viol:
         grp, log = ck.coq_broken
         ck.violation("proof-broken", "Coq development %s no longer checks:\n%s" % (grp, log[-1200:]),
